@@ -8,6 +8,9 @@ import (
 
 func (p *Pool) Stop() {
 	verifhook.At("wpool.stop.enter")
+	p.stopM.Lock()
+	defer p.stopM.Unlock()
+
 	defer p.runM.Unlock()
 	if p.runM.TryLock() {
 		slog.Warn("worker pool already stopped")
